@@ -188,7 +188,7 @@ def replay_impl_call(call):
 
 
 def run_link_iter(frames, sr, memory=0, link_strategy=None, max_size=None, adaptive=None, predictor=None,
-                  enumerate_t=None, neighbor_strategy=None, bystander=False):
+                  enumerate_t=None, neighbor_strategy=None, bystander=False, plain_limit=None):
     """Drive trackpy.link_iter frame by frame.  Returns list of label lists,
     None at the step that raised SubnetOversizeException (and stops there)."""
     import trackpy as tp
@@ -205,8 +205,8 @@ def run_link_iter(frames, sr, memory=0, link_strategy=None, max_size=None, adapt
         kw['adaptive_stop'], kw['adaptive_step'] = adaptive
     old = (Linker.MAX_SUB_NET_SIZE, Linker.MAX_SUB_NET_SIZE_ADAPTIVE)
     if max_size is not None:
-        Linker.MAX_SUB_NET_SIZE = max_size
-        Linker.MAX_SUB_NET_SIZE_ADAPTIVE = max_size
+        Linker.MAX_SUB_NET_SIZE = max_size if plain_limit is None else plain_limit     # with adaptive search only the
+        Linker.MAX_SUB_NET_SIZE_ADAPTIVE = max_size                                    # ADAPTIVE limit is in force
     out = []
     import signal
 
